@@ -105,10 +105,10 @@ def eval_pred_value(ix, mod, expr, binding, depth=0):
         eval_pred._value_mode = old
 
 
-def c15_1(rep, ix):
+def c15_1(rep, ix, predicate_only=False):
     R = "C15.1"
     rep.rule(R, "the p-type predicate (first character 'p', remainder decimal digits) is the same in the listener and in both inline copies of the serialiser, where it also requires the program type tdm; "
-                "decided by evaluating each predicate on a fixed list of model strings", floor=3 * len(STRINGS))
+                "decided by evaluating each predicate on a fixed list of model strings", floor=(len(STRINGS) - 1) if predicate_only else 3 * len(STRINGS))
     f = ix.func("listener.is_ptype")
     from ..py import norm as _norm
     value = _norm.as_expression(f.node.body)
@@ -123,6 +123,8 @@ def c15_1(rep, ix):
         except ModelError as e:
             got = "raises " + str(e)
         rep.check(got == is_p(s), R, ix.site(f), "is_ptype(%r) is %s" % (s, is_p(s)), "evaluates to %s" % got, key="is_ptype|" + s)
+    if predicate_only:
+        return          # properties of the loader consult the listener's predicate only; the serialiser's copies belong to C01 / C09 / C15
     # serialiser copies
     sf = ix.func(SER)
     fn = sf.node
